@@ -231,6 +231,31 @@ def validate(run, module, cfg, shards, what='validate', timeout=3600, heap='3g',
     return reports
 
 
+def rebalance(run, shards, prefix='bal', nshards=None):
+    """Re-distribute recorded lines over shards so that the TLC validations take about equally long
+    (cost of a line ~ its length: big payloads are what is slow); greedy, longest first."""
+    nshards = nshards or NPROC
+    lines = []
+    for s in shards:
+        with open(s) as f:
+            lines += [l for l in f if l.strip()]
+    if len(lines) <= 1:
+        return shards
+    lines.sort(key=len, reverse=True)
+    bins = [[0, []] for _ in range(min(nshards, len(lines)))]
+    for l in lines:
+        b = min(bins, key=lambda x: x[0])
+        b[0] += len(l) + 2000          # a constant per line: small lines are not free
+        b[1].append(l)
+    out = []
+    for k, (_, ls) in enumerate(bins):
+        path = run.path('%s.%d.ndjson' % (prefix, k))
+        with open(path, 'w') as f:
+            f.writelines(ls)
+        out.append(path)
+    return out
+
+
 def load_trace_index(shards):
     idx = {}
     for s in shards:
@@ -357,8 +382,9 @@ def finish(run, level='model_checking', rule='', exhaustive=False, extra_cov=Non
     ev = {'property_id': run.prop, 'tier': run.tier, 'seed': run.seed, 'level': level,
           'coverage': cov, 'assumptions': run.assumptions,
           'wall_s': round(time.time() - run.t0, 1), 'violations': len(run.violations)}
-    os.makedirs(os.path.join(VERIF, 'evidence'), exist_ok=True)
-    with open(os.path.join(VERIF, 'evidence', run.prop + '.json'), 'w') as f:
+    evdir = os.environ.get('VERIF_EVIDENCE_DIR') or os.path.join(VERIF, 'evidence')   # (sensitivity runs against scratch copies write elsewhere)
+    os.makedirs(evdir, exist_ok=True)
+    with open(os.path.join(evdir, run.prop + '.json'), 'w') as f:
         json.dump(ev, f, indent=1, sort_keys=True)
     if rc == 0:
         run.cleanup()
